@@ -31,7 +31,7 @@ PROPS = {
         suites=["fault"], tags={"contained", "nofail", "reopen"}, fault_corr={"ret"},
         rule="one EIO injected at every effective filesystem call of every history, then reads, two restarts and reads"),
     "C18": dict(
-        suites=["seq", "codec"], tags={"hash_identity", "roundtrip", "decoder_total"}, corr={"state", "dir"}, codec_kinds={"path", "unpath"},
+        suites=["seq", "codec", "sizes"], tags={"hash_identity", "roundtrip", "decoder_total", "cas_exact", "reads", "sizes", "counts"}, corr={"state", "dir"}, codec_kinds={"path", "unpath"},
         rule="entry hash == blake3(concat chunks) (blake3 crate oracle), file at hexpath(hash), for all chunkings"),
     "C20": dict(
         suites=["crash", "seq"], tags={"disk_wellformed", "disk_history"}, corr={"dir"}, crash_corr={"image"},
@@ -52,4 +52,10 @@ PROPS = {
         rule="every truncation offset and every single-bit change (masks 0x01, 0x80) of checksum and payload bytes of every "
              "uncheckpointed record of logs produced by random clean histories (sampled positions for records above 120 bytes); "
              "real Cas::open on a copy with the damaged segment vs the model and vs the longest-undamaged-prefix state"),
+    "C19": dict(
+        suites=["settings"], tags={"gate_accepts", "gate_modifies", "precreate_observable"},
+        rule="creation value x reopen value of num_ops_per_wal, stored version numbers 0,1,3,5,2^32-1, after random histories; "
+             "directory compared byte for byte before/after the rejected open; same history with and without the pre-created tree (real library only)",
+        assumptions=["JSON rendering/parsing of db_settings.json is serde_json's (trusted); the model stores the typed settings document",
+                     "the pre-created tree is exercised on the real library only (the list-based model is quadratic in 65,536 directories)"]),
 }
